@@ -94,9 +94,18 @@ def main():
                 for d in set(os.listdir(cdir)) - caches_before:
                     shutil.rmtree(os.path.join(cdir, d), ignore_errors=True)
     # clean caches of mutated trees (named by tree sha): keep only the current tree's
+    rp = os.path.join(HERE, "tools", "mutants_last_result.json")
     if not (args.world or args.id):
-        with open(os.path.join(HERE, "tools", "mutants_last_result.json"), "w") as f:
+        with open(rp, "w") as f:
             json.dump({"results": results}, f, indent=1, sort_keys=True)
+    elif os.path.exists(rp):
+        # partial run: refresh the corresponding entries of the last full result
+        with open(rp) as f:
+            old = json.load(f)
+        byid = {r["id"]: r for r in results}
+        old["results"] = [byid.pop(r["id"], r) for r in old["results"]] + list(byid.values())
+        with open(rp, "w") as f:
+            json.dump(old, f, indent=1, sort_keys=True)
     missed = [r["id"] for r in results if not r["caught"] and r["expect"] in ("caught", "stale")]
     print("mutants: %d, caught: %d, missed: %s" % (len(results), len(results) - len(missed), missed))
     return 1 if missed else 0
